@@ -25,6 +25,36 @@ TECHNIQUE = "static analysis of built MIR: edge dominance on the mode flag, valu
 CRATE = "tower_resilience_timelimiter"
 
 
+def _optionlike_enums(facts, b):
+    """private enums of the crate with exactly one unit variant and one single-payload variant (Option in disguise)
+    that are constructed in body b: [(adt def, unit variant, payload variant)]"""
+    out = []
+    seen = set()
+    for blk in b.blocks:
+        for s in blk["stmts"]:
+            if s["k"] == "assign" and s["rv"]["k"] == "agg" and s["rv"].get("ak") == "adt":
+                d = s["rv"].get("def")
+                if d in seen or not d or not d.startswith(CRATE):
+                    continue
+                seen.add(d)
+                adt = facts.adt(d)
+                if adt is None or adt["kind"] != "enum" or adt["vis"] == "pub" or len(adt["variants"]) != 2:
+                    continue
+                units = [v for v in adt["variants"] if len(v["fields"]) == 0]
+                pays = [v for v in adt["variants"] if len(v["fields"]) == 1]
+                if len(units) == 1 and len(pays) == 1:
+                    out.append((d, units[0]["name"], pays[0]["name"]))
+    return out
+
+
+def _optionlike_labels(facts, b):
+    none_like, some_like = {"None"}, {"Some"}
+    for (_d, u, p_) in _optionlike_enums(facts, b):
+        none_like.add(u)
+        some_like.add(p_)
+    return none_like, some_like
+
+
 def run(facts, tr, rep):
     sbs = service_call_bodies(facts, crate=CRATE)
     if not sbs:
@@ -194,16 +224,36 @@ def run(facts, tr, rep):
             v = s["rv"]["variant"]
             nerr += 1
             edges = dominating_edges(tr, b, i)
+            none_like, some_like = _optionlike_labels(facts, b)
             if v == "Timeout":
-                ok = any(e["kind"] == "enum" and e["label"] == "None" for e in edges)
+                ok = any(e["kind"] == "enum" and e["label"] in none_like for e in edges)
                 rep.ob("C06.MAPPING", skey(b, "Timeout#%d" % nerr), ok, g.where(i, j),
                        "the timeout error is constructed only when no inner result arrived (None of timeout().ok() / the race)" if ok else
                        "the timeout error can be constructed although an inner result arrived")
             elif v == "Inner":
-                ok = any(e["kind"] == "enum" and e["label"] == "Err" for e in edges) and any(e["kind"] == "enum" and e["label"] == "Some" for e in edges)
+                ok = any(e["kind"] == "enum" and e["label"] == "Err" for e in edges) and any(e["kind"] == "enum" and e["label"] in some_like for e in edges)
                 rep.ob("C06.MAPPING", skey(b, "Inner#%d" % nerr), ok, g.where(i, j),
                        "Inner(e) is constructed on the Some(Err(e)) edge of the result" if ok else "Inner(e) is constructed off the Some(Err(e)) edge")
     rep.floor("C06.error-sites", nerr, 2)
+    # a private two-variant enum used instead of Option (`Finished(result)` / `DeadlineElapsed`): its unit variant is
+    # built only where no result arrived, its payload variant only from a result that arrived
+    for (adt_def, unit_v, pay_v) in _optionlike_enums(facts, b):
+        for i, blk in enumerate(b.blocks):
+            for j, s in enumerate(blk["stmts"]):
+                if s["k"] != "assign" or s["rv"]["k"] != "agg" or s["rv"].get("def") != adt_def:
+                    continue
+                edges = dominating_edges(tr, b, i)
+                if s["rv"]["variant"] == unit_v:
+                    bad = [e for e in edges if e["kind"] == "enum" and e["label"] == "Ok"]
+                    rep.ob("C06.MAPPING", skey(b, "%s@L%d" % (unit_v, g.line(i, j))), not bad, g.where(i, j),
+                           "%s (no inner result) is never built on an arm where a result arrived" % unit_v if not bad else
+                           "%s (no inner result) is built on the Ok arm of a result that arrived: an inner result in time would be reported as a timeout" % unit_v)
+                elif s["rv"]["variant"] == pay_v:
+                    pv = tr.expand(tr.operand(b, s["rv"]["ops"][0], (i, j)), upvars=True)
+                    good = any(a.poll_bb is not None and derives(tr, peel(x), await_node(b, a), variants=("Ready", "Ok", "Some")) for a in g.awaits() for x in leaves(pv)) or \
+                        any(e["kind"] == "enum" and e["label"] == "Ok" for e in edges)
+                    rep.ob("C06.MAPPING", skey(b, "%s@L%d" % (pay_v, g.line(i, j))), good, g.where(i, j),
+                           "%s carries a result that arrived" % pay_v if good else "%s is built from something that is not an arrived result" % pay_v)
     # the Option result: None only from timeout elapsed (.ok()) or the sleep branch; Some(x) from the inner result
     # ---------------------------------------------------------------- AWAITS
     aws = []
